@@ -299,7 +299,7 @@ func genCase(t *rapid.T) Case {
 	}
 	c.EMHash = h
 	c.Form = rapid.IntRange(1, 2).Draw(t, "form")
-	c.Kind = rapid.SampledFrom([]string{"form1", "form2", "form1", "form2", "replace", "replace", "replace", "replace", "shortpad", "shortpad", "shortem", "wronghash", "otherdata", "sigflip", "tbsflip", "sigrandom", "ecdsa-device"}).Draw(t, "kind")
+	c.Kind = rapid.SampledFrom([]string{"form1", "form2", "form1", "form2", "replace", "replace", "replace", "replace", "shortpad", "shortpad", "shortem", "wronghash", "otherdata", "sigflip", "tbsflip", "sigrandom", "ecdsa-device", "siglonger"}).Draw(t, "kind")
 	switch c.Kind {
 	case "form1":
 		c.Form = 1
@@ -357,6 +357,9 @@ func genCase(t *rapid.T) Case {
 		c.OtherTBS = rapid.SliceOfN(rapid.Byte(), 0, 120).Draw(t, "otherTBS")
 	case "sigflip", "tbsflip":
 		c.FlipBit = rapid.IntRange(0, 1<<20).Draw(t, "flipBit")
+	case "siglonger":
+		c.NewByte = rapid.SampledFrom([]int{0x01, 0x5a, 0x80, 0xff, 0x00}).Draw(t, "extraByte")
+		c.PadLen = rapid.IntRange(0, 2).Draw(t, "extraWhere")
 	case "sigrandom":
 		c.Garbage = rapid.SliceOfN(rapid.Byte(), 0, 300).Draw(t, "sig")
 	case "ecdsa-device":
@@ -435,6 +438,17 @@ func buildSignature(c Case) (tbs, sig []byte, err error) {
 	case "tbsflip":
 		b := c.FlipBit % (8 * len(tbs))
 		tbs[b/8] ^= 1 << (b % 8)
+	case "siglonger":
+		// a genuine signature with bytes added in front of or behind it (NewByte is the byte, PadLen 0 =
+		// in front, 1 = behind, 2 = two bytes in front)
+		switch c.PadLen {
+		case 1:
+			sig = append(sig, byte(c.NewByte))
+		case 2:
+			sig = append([]byte{byte(c.NewByte), byte(c.NewByte)}, sig...)
+		default:
+			sig = append([]byte{byte(c.NewByte)}, sig...)
+		}
 	}
 	return tbs, sig, nil
 }
@@ -509,13 +523,16 @@ func exec(c Case) (vh.Outcome, error) {
 	}
 	// an unknown critical extension may (and on the pinned tree does) make the verifier refuse a device
 	// certificate that chains correctly: only the "accepted => valid" direction is judged then
+	if c.Kind == "siglonger" {
+		iff = false // zero bytes in front leave the signature VALUE unchanged: refusing the longer encoding is fine
+	}
 	if critical := c.DevExt != "" && c.DevExt != "yubico-plain"; !accepted && want && iff && !critical {
 		return out, vh.Errf("Attest refused a valid attestation (%v): label %v, device key %s, kind %s form %d hash %s\n EM seen: %x", aerr, algo, c.DevKey, c.Kind, c.Form, c.EMHash, seen)
 	}
 	return out, nil
 }
 
-const rule = "the harness owns the device RSA private key and signs arbitrary encoded messages (sig = EM^d mod N): correct form 1 (with NULL) and form 2 (without) for SHA-1/256/384/512; one byte replaced at a position drawn per class (00, 01, first / last / inner padding byte, separator, identifier, digest); shortened padding with shifted tail and garbage; short EM with 0..7 padding bytes; identifier of another hash; digest of other data; single-bit flips of signature and body; arbitrary signature bytes; genuine ECDSA signature under a non-RSA device key. Crossed with every signature-algorithm label 0..20, device key sizes 1024/1025/1031/1536/2047/2048 (rarely 4096/4104/4608/6144; always, with 3072, in thorough), device certificate issued by a pool root / by a CA outside the pool / self-signed / expired / not yet valid, optionally carrying a vendor extension (Yubico arc, plain or critical) or another unknown critical extension (then only 'accepted => valid chain' is judged), pools of 1..3 roots handed over as a pool or (a third) as the two PEM files NewAttestor reads - the CA outside the pool is installed as this process's host trust store (SSL_CERT_FILE), i.e. a publicly trusted CA that is not configured -, slot certificate dated now / inside an expired device certificate's window / in the future / not at all (the chain must be judged at the current time). Oracle: the harness recomputes sig^e mod N itself; for *WithRSA SHA labels Attest = nil iff chain valid now and EM is form 1 or form 2 of the label's digest; DSA/ECDSA labels only-if; everything else must be refused. Non-trivial: every case except 'everything valid, form 1'."
+const rule = "the harness owns the device RSA private key and signs arbitrary encoded messages (sig = EM^d mod N): correct form 1 (with NULL) and form 2 (without) for SHA-1/256/384/512; one byte replaced at a position drawn per class (00, 01, first / last / inner padding byte, separator, identifier, digest); shortened padding with shifted tail and garbage; short EM with 0..7 padding bytes; identifier of another hash; digest of other data; single-bit flips of signature and body; arbitrary signature bytes; a genuine signature with one or two bytes added in front or one behind; genuine ECDSA signature under a non-RSA device key. Crossed with every signature-algorithm label 0..20, device key sizes 1024/1025/1031/1536/2047/2048 (rarely 4096/4104/4608/6144; always, with 3072, in thorough), device certificate issued by a pool root / by a CA outside the pool / self-signed / expired / not yet valid, optionally carrying a vendor extension (Yubico arc, plain or critical) or another unknown critical extension (then only 'accepted => valid chain' is judged), pools of 1..3 roots handed over as a pool or (a third) as the two PEM files NewAttestor reads - the CA outside the pool is installed as this process's host trust store (SSL_CERT_FILE), i.e. a publicly trusted CA that is not configured -, slot certificate dated now / inside an expired device certificate's window / in the future / not at all (the chain must be judged at the current time). Oracle: the harness recomputes sig^e mod N itself; for *WithRSA SHA labels Attest = nil iff chain valid now and EM is form 1 or form 2 of the label's digest; DSA/ECDSA labels only-if; everything else must be refused. Non-trivial: every case except 'everything valid, form 1'."
 
 func TestC06Attest(t *testing.T) {
 	vh.Run(t, vh.Spec[Case]{Property: "C06", Name: "TestC06Attest", Rule: rule, Gen: genCase, Exec: exec})
